@@ -14,6 +14,7 @@ import (
 	"runtime"
 	"strconv"
 
+	_ "github.com/pion/interceptor/verifh/c01"
 	_ "github.com/pion/interceptor/verifh/c03"
 	_ "github.com/pion/interceptor/verifh/c04"
 	_ "github.com/pion/interceptor/verifh/c08"
